@@ -561,6 +561,10 @@ class UDPDeviceManagementConnection(_DeviceManagementConnection):
         raw_cemi = cemi.to_knx()
         # A repetition keeps the sequence counter of the frame it repeats.
         for attempt in range(DEVICE_CONFIGURATION_REQUEST_REPETITIONS + 1):
+            if self.communication_channel != channel:
+                # closed while waiting for the acknowledgement - a repetition
+                # must not be sent on a connection that is gone
+                raise CommunicationError("Device management connection was closed.")
             device_configuration = DeviceConfiguration(
                 transport=self.transport,
                 data_endpoint=self._data_endpoint_addr,
